@@ -37,6 +37,16 @@ def site_problems(ctx, n):
     return probs
 
 
+def window_shortfall(prob, di, tz, ts):
+    """Trigger of finding D44 at site level: the total-site target is below the site's direct-integration target by no more than
+    (2 x activity window 1e-5 K) x (heat-capacity flow rate of the utilities in the site cascade): grid rows of the site table
+    closer than the window make a utility inactive in that sliver."""
+    short = max(di.Qh - ts.Qh, di.Qc - ts.Qc)
+    spans = [max(abs(u["t_supply"] - u["t_target"]), 0.1) for u in prob["utilities"]] + [0.1]
+    cp_ut = (sum(c02.utility_lists(tz)[0]) + sum(c02.utility_lists(tz)[1])) / min(spans)
+    return 0 < short <= 2e-5 * cp_ut
+
+
 def run(ctx):
     n = ctx.budget(140, 5000)
     cf = CaseFile(ctx, "site", HDR, shard=40)
@@ -87,6 +97,11 @@ def run(ctx):
         if v[1] == 94 and glide_short:
             ctx.fail("glide-utility-undersupplied", f"{clause} (a zone's gliding cold utility is undersupplied)", suite="site",
                      input=dict(problem=prob), impl_output=dict(DI=(di.Qh, di.Qc, di.Qr), TZ=(tz.Qh, tz.Qc, tz.Qr), TS=(ts.Qh, ts.Qc, ts.Qr)), predicate="c09_b")
+            continue
+        if v[1] == 94 and window_shortfall(prob, di, tz, ts):
+            ctx.fail("activity-window-swallows-narrow-interval", f"{clause} by less than window x utility CP (grid rows of the site table closer "
+                     "than the tol*10 activity window)", suite="site", input=dict(problem=prob),
+                     impl_output=dict(DI=(di.Qh, di.Qc, di.Qr), TZ=(tz.Qh, tz.Qc, tz.Qr), TS=(ts.Qh, ts.Qc, ts.Qr)), predicate="c09_b")
             continue
         if bad < 3:
             ctx.fail("site-bounds", clause, suite="site", input=dict(problem=prob),
